@@ -575,7 +575,16 @@ def make_iter(I, v, node):
         return SIter(len(ks), lambda k: ks[k], "dictkeys")
     if isinstance(v, (set, frozenset)):
         ks = list(v)
-        I.ctx.notes.add("iteration over a set uses the engine's arbitrary order")
+        if 2 <= len(ks) <= 4 and not all(isinstance(x, (int, str, bytes)) for x in ks):
+            # the order in which a set of objects is walked is not determined by the program (hash = address): every order is a path of its own,
+            # so a result that depends on it cannot satisfy a postcondition that fixes the order
+            import itertools
+            perms = list(itertools.permutations(range(len(ks))))
+            perm = I.ctx.choose(perms, "set-iteration-order")
+            ks = [ks[i] for i in perm]
+            I.ctx.notes.add("iteration over a set of objects: every order explored")
+        else:
+            I.ctx.notes.add("iteration over a set uses the engine's arbitrary order")
         return SIter(len(ks), lambda k: ks[k], "set")
     if isinstance(v, (SBytes, SList)):
         src = v
